@@ -30,7 +30,7 @@ ASSUMPTIONS = [
     "'%' is excluded from generated trees while known finding KF10b is open (grammar treats it as a comparison operator)",
 ]
 TIERS = {
-    "quick": {"exh_ops": 3, "examples": 10000, "budget_s": 110, "exhaustive": True},
+    "quick": {"exh_ops": 3, "examples": 40000, "budget_s": 110, "exhaustive": True},
     "thorough": {"exh_ops": 4, "examples": 300000, "budget_s": 1800, "exhaustive": True},
 }
 PARTS = ["exhaustive", "search"]
@@ -116,6 +116,16 @@ def arith_trees(n):
     return out
 
 
+def cmp_trees(n):
+    """plain comparisons over arithmetic with exactly n operators"""
+    out = []
+    for k in range(n):
+        for a in arith_trees(k):
+            for b in arith_trees(n - 1 - k):
+                out.append(["cmp", "=", a, b])
+    return out
+
+
 def logic_trees(n, cache={}):
     """all logical trees with exactly n operators; a comparison counts as one operator"""
     if n in cache:
@@ -127,6 +137,13 @@ def logic_trees(n, cache={}):
             for a in arith_trees(k):
                 for b in arith_trees(n - 1 - k):
                     out.append(["cmp", "=", a, b])
+        # chains of comparison-level operators (left-associative; a nested comparison on the right needs parentheses)
+        for k in range(1, n):
+            for a in cmp_trees(k):
+                for b in arith_trees(n - 1 - k):
+                    out.append(["cmp", ">", a, b])
+                    if n - 1 - k == 0:
+                        out.append(["cmp", ">", b, a])
         for inner in logic_trees(n - 1):
             out.append(["not", inner])
         for k in range(1, n - 1):
@@ -246,7 +263,7 @@ def search(acc: Acc, tier, shard, nshards):
             acc.cls(k2, v2)
         for lvl in lv:
             acc.cls("level:%d" % lvl)
-        return check_expr(tree, src, ctx, {"tree": tree, "src": src, "ctx": list(ctx)}, public=(counter["i"] % 200 == 0))
+        return check_expr(tree, src, ctx, {"tree": tree, "src": src, "ctx": list(ctx)}, public=ch.chance(1, 200))
 
     hyp_search(acc, ID, "trees", shard, n, body, tier)
     for k, v in exprs.EXCLUDED.items():
